@@ -220,37 +220,25 @@ theorem min_spec (t : Table) (wf : t.WF = true) (hp : t.hitPolicy = .collectMin)
   · intro n ns h
     exact ⟨minInt n ns, by simp [Spec.min, h], minInt_spec n ns⟩
 
-/-
--- FULL STATEMENT (not provable of the current code, finding F20):
+/-- COLLECT >: the maximum of the matching outputs when all are numbers or all are strings
+(null otherwise — a null among the outputs included, as for C< — and null for compound
+outputs); for numbers it is a member that is `≥` all. -/
 theorem max_spec (t : Table) (wf : t.WF = true) (hp : t.hitPolicy = .collectMax)
     (hne : matchingRules t ≠ []) :
-    evaluate t = .ok (if t.componentNames.length > 1 then .null else Spec.max (firsts t))
-`bifs::core::max` skips `Null` items after the first one while `min` returns null for them:
-C> over [1, null, 3] is 3, C< over the same outputs is null.
--/
-
-/-- COLLECT >: as `min_spec`, provided no matching output after the first is null. -/
-theorem max_spec_partial (t : Table) (wf : t.WF = true) (hp : t.hitPolicy = .collectMax)
-    (hne : matchingRules t ≠ []) (hnn : noNull (firsts t).tail = true) :
     evaluate t = .ok (if t.componentNames.length > 1 then .null else Spec.max (firsts t)) ∧
     (∀ n ns, allNums (firsts t) = some (n :: ns) →
       ∃ m, Spec.max (firsts t) = .num m ∧ m ∈ n :: ns ∧ ∀ x ∈ n :: ns, x ≤ m) := by
   refine ⟨?_, ?_⟩
-  · simp only [evaluate, hp, agg_spec _ bifMax t wf hne, bifMax_eq _ hnn]
+  · simp only [evaluate, hp, agg_spec _ bifMax t wf hne, bifMax_eq]
   · intro n ns h
     exact ⟨maxInt n ns, by simp [Spec.max, h], maxInt_spec n ns⟩
 
-example : (⟨.collectMax, [], [.none], [.none], [⟨[.t], [.num 1]⟩, ⟨[.t], [.num 3]⟩]⟩ : Table).WF = true ∧
-    noNull (firsts ⟨.collectMax, [], [.none], [.none], [⟨[.t], [.num 1]⟩, ⟨[.t], [.num 3]⟩]⟩).tail = true := by decide
-
-/-- The witness of F20: three matching rules with outputs 1, null, 3. -/
-def maxWitness : Table :=
-  ⟨.collectMax, [], [.none], [.none], [⟨[.t], [.num 1]⟩, ⟨[.t], [.null]⟩, ⟨[.t], [.num 3]⟩]⟩
-
-theorem max_spec_counterexample :
-    maxWitness.WF = true ∧ matchingRules maxWitness ≠ [] ∧
-    evaluate maxWitness = .ok (.num 3) ∧ Spec.max (firsts maxWitness) = .null ∧
-    evaluate { maxWitness with hitPolicy := .collectMin } = .ok .null := by decide
+/-- The old witness of F20 (repaired by 8855d00): outputs 1, null, 3 give null under C> as
+under C<. -/
+example : (⟨.collectMax, [], [.none], [.none], [⟨[.t], [.num 1]⟩, ⟨[.t], [.null]⟩, ⟨[.t], [.num 3]⟩]⟩ : Table).WF = true ∧
+    evaluate ⟨.collectMax, [], [.none], [.none], [⟨[.t], [.num 1]⟩, ⟨[.t], [.null]⟩, ⟨[.t], [.num 3]⟩]⟩ = .ok .null ∧
+    evaluate ⟨.collectMin, [], [.none], [.none], [⟨[.t], [.num 1]⟩, ⟨[.t], [.null]⟩, ⟨[.t], [.num 3]⟩]⟩ = .ok .null ∧
+    evaluate ⟨.collectMax, [], [.none], [.none], [⟨[.t], [.num 1]⟩, ⟨[.t], [.num 3]⟩]⟩ = .ok (.num 3) := by decide
 
 /-
 -- FULL STATEMENT (not provable of the current code, finding F19):
@@ -392,12 +380,10 @@ theorem parse_hit_policy_spec :
   split at h <;> simp_all
 
 /-- The whole evaluation equals the declarative specification `Spec.evaluate` (the function
-the correspondence compares the implementation with), outside the two excluded regions:
-several output clauses with default entries when no rule matches (F19), and a null among the
-matching outputs under C> (F20). -/
+the correspondence compares the implementation with), outside the excluded region:
+several output clauses with default entries when no rule matches (F19). -/
 theorem evaluate_eq_spec_partial (t : Table) (wf : t.WF = true)
-    (h19 : matchingRules t = [] → singleOrNoDefault t = true)
-    (h20 : t.hitPolicy = .collectMax → noNull (firsts t).tail = true) :
+    (h19 : matchingRules t = [] → singleOrNoDefault t = true) :
     evaluate t = .ok (Spec.evaluate t) := by
   by_cases hm : matchingRules t = []
   · exact no_match_default_partial t wf hm (h19 hm)
@@ -448,6 +434,6 @@ theorem evaluate_eq_spec_partial (t : Table) (wf : t.WF = true)
     · simp only [Spec.evaluate, hne, hp, count_spec t hp hm]; rfl
     · simp only [Spec.evaluate, hne, hp, (sum_spec t wf hp hm).1, firsts]; rfl
     · simp only [Spec.evaluate, hne, hp, (min_spec t wf hp hm).1, firsts]; rfl
-    · simp only [Spec.evaluate, hne, hp, (max_spec_partial t wf hp hm (h20 hp)).1, firsts]; rfl
+    · simp only [Spec.evaluate, hne, hp, (max_spec t wf hp hm).1, firsts]; rfl
 
 end Dmn.DT
